@@ -55,11 +55,18 @@ def r1(ctx):
     upd = pf.locals_named("update_pooled_spec")
     mp = param_names(upd.node)[0]
     fed: Dict[str, Set[str]] = {}
+    partial: Dict[str, str] = {}
     for c in ast.walk(upd.node):
         if isinstance(c, ast.Call) and isinstance(c.func, ast.Attribute) and c.func.attr in ("add", "update") and isinstance(c.func.value, ast.Name):
             for n in ast.walk(c):
                 if isinstance(n, ast.Attribute) and isinstance(n.value, ast.Name) and n.value.id == mp:
                     fed.setdefault(c.func.value.id, set()).add(n.attr)
+            # the whole field must be pooled: `acc.update(model_spec.<field>)` / `acc.add(model_spec.<field>)`, not a filtered view of it
+            a0 = c.args[0] if len(c.args) == 1 else None
+            whole = isinstance(a0, ast.Attribute) and isinstance(a0.value, ast.Name) and a0.value.id == mp
+            chain = isinstance(a0, ast.Call) and (dotted(a0.func) or "").endswith("chain")  # factors: chain(*(term.factors for term in formula))
+            if not whole and not chain:
+                partial[c.func.value.id] = norm(c)[:120]
     for field, where in sorted(reads.items()):
         ctx.look()
         inst = f"spec.{field} (read at {where[0]}) is pooled from the user's specs"
@@ -71,6 +78,12 @@ def r1(ctx):
             continue
         srcs = {n.id for n in ast.walk(v) if isinstance(n, ast.Name)}
         ok = any(field in fed.get(s, set()) for s in srcs)
+        filt = [partial[s] for s in srcs if s in partial]
+        if ok and filt:
+            ctx.fail("C09.R1", inst + " (entirely)", pf.module.line(calls[0]), ctx.construct(pf, text=f"pooled field {field} filtered"),
+                     f"`{field}` is pooled through `{filt[0]}` — a filtered view: state recorded for factors the filter misses (e.g. factors that only "
+                     f"occur inside interactions) is invisible to the guard that reads spec.{field}")
+            continue
         ctx.check(ok, "C09.R1", inst, pf.module.line(calls[0]), ctx.construct(pf, text=f"pooled field {field}"),
                   f"`{field}={norm(v)}` is not fed by the pooling visitor from `{mp}.{field}` (visitor feeds {dict((k, sorted(x)) for k, x in fed.items())})")
     # the guard itself
@@ -177,6 +190,37 @@ def r3(ctx):
     ok = len(cat) == 1 and norm(cat[0].value) == "pandas.Series(pandas.Categorical(data, categories=levels))" and (not warn or cat[0].lineno > warn[0].lineno)
     ctx.check(ok, "C09.R3", "the categorical is built with the pinned levels (absent levels keep their columns, unseen ones add none)", f.module.line(b),
               ctx.construct(f, text="Categorical(categories=levels)"), f"data = `{norm(cat[0].value) if cat else None}`")
+    # explicit `levels=` handed to encode_contrasts by the transforms that wrap it must be the user's choice, never derived from the data
+    from ..util import derived_names
+    n_calls = 0
+    for g in P.functions.values():
+        if isinstance(g.node, ast.Lambda) or not g.module.name.startswith("formulaic.transforms") or g.qualname == f.qualname:
+            continue
+        for c in walk_no_nested(g.node):
+            if isinstance(c, ast.Call) and dotted(c.func) == "encode_contrasts":
+                lv_arg = kwarg(c, "levels")
+                if lv_arg is None:
+                    continue
+                n_calls += 1
+                ctx.look()
+                data_names = set()
+                h = g
+                while h is not None:
+                    ps = [p for p in param_names(h.node) if not p.startswith("*")]
+                    if ps:
+                        data_names |= derived_names(h.node, [ps[0]]) if ps[0] in ("data", "values", "x") else set()
+                    h = h.parent
+                # names bound from a data-derived expression in an enclosing scope count too
+                scope = g
+                tainted = set(data_names)
+                while scope is not None:
+                    tainted |= derived_names(scope.node, tainted) if tainted else set()
+                    scope = scope.parent
+                ctx.check(not mentions(lv_arg, tainted), "C09.R3", f"{g.qualname.replace('formulaic.', '')}: explicit levels are the caller's, not read off the data",
+                          g.module.line(c), ctx.construct(g, text="levels= to encode_contrasts"),
+                          f"`levels={norm(lv_arg)[:60]}` is derived from the data being encoded: on new data the follow-up column's own categories override the "
+                          f"recorded levels (columns appear / disappear, no DataMismatchWarning)")
+    ctx.floor("C09.R3", n_calls, 2, "encode_contrasts calls passing levels=")
     st = [s for s in walk_no_nested(f.node) if isinstance(s, ast.Assign) and norm(s.targets[0]) == "_state['categories']"]
     ok = len(st) == 1 and norm(st[0].value) == "categories"
     ctx.check(ok, "C09.R3", "the category list in use is recorded in the encoder state", f.where, ctx.construct(f, text="record categories"),
